@@ -26,16 +26,16 @@ type shadow struct {
 	startActive int // active members right after init (C34 applies from pools of at least four)
 	inited      bool
 
-	fresh     map[string]bool                       // C33: request key -> requested and not yet applied
-	gen       map[string]int                        // request key -> number of successful request ops so far
+	fresh map[string]bool // C33: request key -> requested and not yet applied
+	gen   map[string]int  // request key -> number of successful request ops so far
 	// C32: per request key, who approved it: under any circumstances since it last took effect (anyA), while the
 	// request had a given content (byIdent), with given op tokens since a given request write (byExact)
-	anyA    map[string]map[common.Address]bool
-	byIdent map[string]map[common.Address]bool
-	byExact map[string]map[common.Address]bool
-	quitReq   map[uint64]common.Address             // C35: pending quit request -> requester
-	voters    map[string]map[common.Address]bool    // C25
-	released  map[string]bool
+	anyA     map[string]map[common.Address]bool
+	byIdent  map[string]map[common.Address]bool
+	byExact  map[string]map[common.Address]bool
+	quitReq  map[uint64]common.Address          // C35: pending quit request -> requester
+	voters   map[string]map[common.Address]bool // C25
+	released map[string]bool
 }
 
 func newShadow() *shadow {
